@@ -70,3 +70,34 @@ Theorem C05_bounded_pairs : forall a b,
   In a indep_As -> In b indep_Bs -> independence_premises cfg_html a b = true -> independence_law cfg_html a b = true.
 Proof. exact bounded_pairs. Qed.
 Print Assumptions C05_bounded_pairs.
+
+(* The law in the property's own terms: A's LAST block is closed (a paragraph, heading, thematic break, quote or
+   table).  The flags of C05_any_blocks_independent then follow for every code, fence and HTML block of A (one
+   after which only blank lines remained would itself be A's last block: a line of white space starts no block -
+   the `needs a non-space character` analysis of the regex engine on the regenerated patterns).  What remains as a
+   computable side condition (stable_run4): no top-level block of A is a link-definition block (the property
+   excludes definitions), and every top-level LIST of A is ended by a line of A. *)
+From Mistletoe Require Import Proofs.ClosedLast.
+Theorem C05_closed_last_independent : forall types f A B st,
+  no_blankline_kind types = true ->
+  stable_run4 types (tokenize_block types f) (S (length A)) A 1 st = true ->
+  closed_last (entries (tokenize_block types (S f) A 1 st)) = true ->
+  let '(esA, _, stA) := tokenize_block types (S f) A 1 st in
+  entries (tokenize_block types (S f) (A ++ NL :: B) 1 st) =
+  esA ++ map (shift_pre (Z.of_nat (length A) + 1)) (entries (tokenize_block types (S f) B 1 stA)).
+Proof. exact closed_last_independent. Qed.
+Print Assumptions C05_closed_last_independent.
+
+Theorem C05_closed_last_hypotheses :
+  let A := [ $"    code" ++ [10]; [10]; $"```" ++ [10]; $"x" ++ [10]; $"```" ++ [10]; $"<div>" ++ [10]; [10]; $"# h" ++ [10]; $"para" ++ [10] ] in
+  stable_run4 block_types_html (tokenize_block block_types_html 5) (S (length A)) A 1 (mkPs true) = true /\
+  closed_last (entries (tokenize_block block_types_html 6 A 1 (mkPs true))) = true /\
+  length (entries (tokenize_block block_types_html 6 A 1 (mkPs true))) = 5%nat.
+Proof. exact closed_last_somewhere. Qed.
+Print Assumptions C05_closed_last_hypotheses.
+
+(* a line of white space starts no block, whatever follows it *)
+Theorem C05_blank_lines_start_nothing : forall types rec k line rest ln st,
+  is_blank line = true -> kind_eqb k BK_BlankLine = false -> start_read types rec k (line :: rest) ln st = None.
+Proof. exact BlankLines.start_read_blank. Qed.
+Print Assumptions C05_blank_lines_start_nothing.
